@@ -1,4 +1,5 @@
 import St4sd.Model.Repeat
+import St4sd.Lemmas.C13Kill
 /-!
 Witnesses for C13 (machine-checked by `decide`; the harness replays the same scripts on the real engine).
 
@@ -67,5 +68,28 @@ theorem two_producers_one_silent_never_consumes :
     let s := (runScript cfg (init cfg) ([{ it0 with gap := [.fin] }] ++ List.replicate 3 it0)).1.getLast?.getD (init cfg)
     s.cause = some .retries ∧ s.consume = false ∧ s.hasOutput = true ∧ s.pc = .stopped ∧ s.execLog = [] := by
   decide
+
+/-- the code that exists (repaired or not): `kill-after-producers-done-delay` expires between the `_suicide` check at
+the start of a poll and the launch of that poll (the engine has launched before, so `suicide()` only signals the OLD,
+finished task); the task launched now never ends by itself: nobody kills it, the engine thread waits for ever, the
+cancel event is never set - however many further steps the engine thread is given.  Excluded by hypothesis `hw` of
+`kill_delay_expiry_stops_partial`. -/
+def cfgRace : Cfg :=
+  { retries := 3, dieAfter := true, prods := [⟨0, true, false⟩], pre := [0], guardNone := true,
+    killOnSuicidePoll := true }
+
+def histRace : List Op :=
+  [.eng .ok, .eng .ok, .eng .ok, .eng .ok, .eng .ok, .eng .ok,      -- one whole poll, a task ran and ended
+   .env .fin, .eng .ok, .eng .ok,                                    -- notification; next poll passed the check
+   .env .die,                                                        -- the delay expires HERE
+   .eng .hang, .eng .hang]                                           -- the poll goes on and launches
+
+theorem kill_delay_expiring_before_launch_leaves_never_ending_task_running (n : Nat) :
+    let s := run cfgRace (exec cfgRace histRace) (List.replicate n (.eng .hang))
+    (exec cfgRace histRace).suicide = true ∧ (exec cfgRace histRace).prodDone = true ∧
+    s.cancel = false ∧ blocked s = true := by
+  have hb : blocked (exec cfgRace histRace) = true := by decide
+  obtain ⟨h1, h2, _⟩ := blocked_forever cfgRace .hang n _ hb
+  exact ⟨by decide, by decide, by rw [h2]; decide, h1⟩
 
 end St4sd.C13.Witness
